@@ -52,11 +52,16 @@ def _pretty(ctx, tw, ms):
     pt = ctx.repo.func('TRS.pretty_twprge')
     rets = [n for n in walk_local(pt.node) if isinstance(n, ast.Return)]
     if len(rets) != 1 or not isinstance(rets[0].value, ast.JoinedStr):
-        raise AnalysisError("TRS.pretty_twprge: f-string return not found")
+        ctx.undecided('RX-LANG', 'pretty_twprge template', 'f-string return not recognised')
+        return
     parts = [norm(v.value) for v in rets[0].value.values if isinstance(v, ast.FormattedValue)]
-    ctx.check(parts == ['t', 'twp_num', 'ns', 'delim', 'r', 'rge_num', 'ew'], 'RX-LANG',
-              "pretty_twprge renders {t}{twp_num}{ns}{delim}{r}{rge_num}{ew}",
-              detail_bad=f"template parts {parts}", key="RX-LANG|pretty_twprge|template")
+    good_t = parts == ['t', 'twp_num', 'ns', 'delim', 'r', 'rge_num', 'ew']
+    # positive evidence: the same seven names in another order
+    ctx.tri(good_t, sorted(parts) == sorted(['t', 'twp_num', 'ns', 'delim', 'r', 'rge_num', 'ew']) and not good_t,
+            'RX-LANG', "pretty_twprge renders {t}{twp_num}{ns}{delim}{r}{rge_num}{ew}",
+            detail_bad=f"template parts are ordered {parts}", key="RX-LANG|pretty_twprge|template")
+    if not good_t:
+        return
     d = pt.param_defaults()
     dv = {k: ctx.fold.eval(v, {}, pt.module.name) for k, v in d.items() if v is not None}
     L = common.lang(ctx, tw)
@@ -73,24 +78,31 @@ def _pretty(ctx, tw, ms):
               f"defaults {dv}", f"the library's own rendering {bad!r} is not matched by twprge_regex",
               key="RX-LANG|pretty_twprge|roundtrip")
     t = ' '.join(norm(s) for s in walk_local(pt.node) if isinstance(s, ast.stmt))
-    ctx.check('ns = ns.upper()' in t and 'ew = ew.upper()' in t and 'twp_num = self.twp_num' in t
-              and 'rge_num = self.rge_num' in t, 'RX-LANG', 'pretty_twprge renders the numbers and upper-case directions',
-              detail_bad="pretty_twprge body changed", key="RX-LANG|pretty_twprge|body")
+    ctx.shape('ns = ns.upper()' in t and 'ew = ew.upper()' in t and 'twp_num = self.twp_num' in t
+              and 'rge_num = self.rge_num' in t, 'RX-LANG', 'pretty_twprge renders the numbers and upper-case directions')
     pd = ctx.repo.func('TractList.pretty_desc')
     dd = {k: ctx.fold.eval(v, {}, pd.module.name) for k, v in pd.param_defaults().items() if v is not None}
     Ls = common.lang(ctx, ms)
     word = dd.get('word_sec')
     okc = isinstance(word, str) and all(Ls.fullmatch(f"{word}{s}:") for s in ('01', '14', '36'))
-    ctx.check(okc, 'RX-LANG', "pretty_desc's 'Sec NN:' header is read back by multisec_regex (with colon)",
-              detail_bad=f"word_sec default {word!r}: header not matched", key="RX-LANG|pretty_desc|sec-header")
+    ctx.tri(okc, isinstance(word, str) and not okc, 'RX-LANG',
+            "pretty_desc's 'Sec NN:' header is read back by multisec_regex (with colon)",
+            detail_bad=f"word_sec default {word!r}: the library's own header '{word}14:' is not matched by multisec_regex",
+            key="RX-LANG|pretty_desc|sec-header")
     t = ' '.join(norm(s) for s in walk_local(pd.node) if isinstance(s, ast.stmt))
-    ctx.check("f'{dsc}\\n{word_sec}{tract.sec}: '" in t.replace('"', "'") and 'TRS(twprge).pretty_twprge()' in t,
-              'RX-LANG', "pretty_desc emits '<T&R>' then 'Sec NN: <desc>' lines", detail_bad="pretty_desc template changed",
-              key="RX-LANG|pretty_desc|template")
+    fstr_parts = [[norm(v.value) for v in n.values if isinstance(v, ast.FormattedValue)]
+                  + [v.value for v in n.values if isinstance(v, ast.Constant)]
+                  for n in walk_local(pd.node) if isinstance(n, ast.JoinedStr)]
+    has_hdr = any('word_sec' in p and any(x.endswith('.sec') for x in p if isinstance(x, str)) and
+                  any(isinstance(x, str) and x.startswith(':') for x in p) for p in fstr_parts)
+    ctx.shape(has_hdr and 'pretty_twprge()' in t, 'RX-LANG',
+              "pretty_desc emits '<T&R>' then '<word_sec>NN: <desc>' lines")
     # consecutive runs in list order (no regrouping by key)
     keyed = [n for n in walk_local(pd.node) if (isinstance(n, ast.Call) and isinstance(n.func, ast.Attribute)
-             and n.func.attr == 'setdefault') or isinstance(n, (ast.Dict, ast.DictComp))
+             and n.func.attr == 'setdefault')
              or (isinstance(n, ast.Subscript) and isinstance(n.ctx, ast.Store) and 'twprge' in norm(n.slice))]
+    if 'groupby(' in t:
+        keyed = []          # itertools.groupby groups consecutive runs
     runs = 'to_print.append((cur_twprge, cur_group))' in t and 'if t.twprge == cur_twprge' in t \
         and 'cur_group.append(t)' in t and 'cur_group = [t]' in t
     if keyed:
@@ -99,8 +111,7 @@ def _pretty(ctx, tw, ms):
                       f"later is merged into its first group and the rendering no longer follows tract order",
                       key="ORDER|pretty_desc|runs", where=common.loc(pd, keyed[0]))
     else:
-        ctx.check(runs, 'ORDER', 'pretty_desc groups consecutive runs of a Twp/Rge, in list order',
-                  detail_bad="run-grouping loop of pretty_desc changed", key="ORDER|pretty_desc|runs")
+        ctx.shape(runs or 'groupby(' in t, 'ORDER', 'pretty_desc groups consecutive runs of a Twp/Rge, in list order')
 
 
 def word_tables(ctx):
@@ -131,9 +142,8 @@ def _word_tables(ctx):
     ctx.attempt(word_tables)
     sf = ctx.repo.func('SecFinder.findall_matching_sec')
     t = ' '.join(norm(s) for s in walk_local(sf.node) if isinstance(s, ast.stmt))
-    ctx.check('text[:sec_mo.start()].rstrip().endswith(illegal)' in t, 'TBL',
-              "SecFinder tests the words right before the section", detail_bad="prior-word test changed",
-              key="TBL|SecFinder|prior-word")
+    ctx.shape('text[:sec_mo.start()].rstrip().endswith(illegal)' in t, 'TBL',
+              "SecFinder tests the words right before the section")
 
 
 def _marker_walk(ctx):
@@ -143,32 +153,26 @@ def _marker_walk(ctx):
                               'self.markers_dict[start] = SEC_START', 'self.markers_dict[end] = SEC_END',
                               'self.markers_dict[start] = TWPRGE_START', 'self.markers_dict[end] = TWPRGE_END',
                               'self.markers_list = sorted(self.markers_dict.keys())'))
-    ctx.check(ok, 'TBL', 'populate_markers: start/end markers of every section and Twp/Rge match, sorted by position',
-              detail_bad="marker table construction changed", key="TBL|populate_markers")
+    ctx.shape(ok, 'TBL', 'populate_markers: start/end markers of every section and Twp/Rge match, sorted by position')
     # text markers first so that matches at 0 / len overwrite them
     body = [norm(s) for s in pm.node.body]
     i0 = next((i for i, s in enumerate(body) if 'TEXT_START' in s), None)
     isec = next((i for i, s in enumerate(body) if s.startswith('for ') and 'self.sec_matches' in s), None)
-    ctx.check(i0 is not None and isec is not None and i0 < isec, 'ORDER',
-              'TEXT_START/TEXT_END are set before the match markers (which may overwrite them)',
-              detail_bad="order of marker stores changed", key="ORDER|populate_markers")
+    ctx.shape(i0 is not None and isec is not None and i0 < isec, 'ORDER',
+              'TEXT_START/TEXT_END are set before the match markers (which may overwrite them)')
     pmf = ctx.repo.func('ChunkParser._parse_meaningful')
     t = ' '.join(norm(s) for s in walk_local(pmf.node) if isinstance(s, ast.stmt))
-    ctx.check('if layout not in s_desc_lays: self.working_sec = self.get_next_sec()' in t.replace('\n', ' ')
+    ctx.shape('if layout not in s_desc_lays: self.working_sec = self.get_next_sec()' in t.replace('\n', ' ')
               or ('if layout not in s_desc_lays' in t and 'self.working_sec = self.get_next_sec()' in t), 'TBL',
-              'forward-looking layouts stage the first section up front', detail_bad="staging changed",
-              key="TBL|_parse_meaningful|stage-sec")
-    ctx.check('if layout not in tr_first_lays' in t and 'self.working_twprge = self.get_next_twprge()' in t, 'TBL',
-              'Twp/Rge-last layouts stage the first Twp/Rge up front', detail_bad="staging changed",
-              key="TBL|_parse_meaningful|stage-twprge")
-    ctx.check('if layout in s_desc_lays and marker_type == SEC_END' in t
+              'forward-looking layouts stage the first section up front')
+    ctx.shape('if layout not in tr_first_lays' in t and 'self.working_twprge = self.get_next_twprge()' in t, 'TBL',
+              'Twp/Rge-last layouts stage the first Twp/Rge up front')
+    ctx.shape('if layout in s_desc_lays and marker_type == SEC_END' in t
               and 'elif layout not in s_desc_lays and next_marker_type == SEC_START' in t, 'TBL',
-              'a block becomes a tract after its section (sec-first) or before the next section (desc-first)',
-              detail_bad="tract-closing conditions changed", key="TBL|_parse_meaningful|close")
-    ctx.check('if marker_type == TWPRGE_START: self.get_next_twprge()' in t.replace('\n', ' ')
+              'a block becomes a tract after its section (sec-first) or before the next section (desc-first)')
+    ctx.shape('if marker_type == TWPRGE_START: self.get_next_twprge()' in t.replace('\n', ' ')
               or ('marker_type == TWPRGE_START' in t and 'marker_type == SEC_START' in t), 'TBL',
-              'start markers advance the working Twp/Rge / section', detail_bad="marker handling changed",
-              key="TBL|_parse_meaningful|advance")
+              'start markers advance the working Twp/Rge / section')
     # a dictated layout reaches the chunk parsers (see also C11)
     pp = ctx.repo.func('PLSSParser.parse')
     asg = [n for n in walk_local(pp.node) if isinstance(n, ast.Assign) and norm(n.targets[0]) == 'chunk_layout'
